@@ -13,7 +13,7 @@ META = {
                    "start/stop/step; value kind) runs on the real SPFLBArray and on a list model; observation, "
                    "exception, full re-read (also after close+reopen) and directory listing are compared. "
                    "Depth-2 sequences cross-check the reachable-state argument.",
-    "bounds": {"array_len": "1..4 (quick) / 1..6 (thorough)", "item_size": "1..2 / 1..3",
+    "bounds": {"array_len": "2..3 + 5 (quick) / 1..5, 13, 40 (thorough)", "item_size": "1..2 / 1..3",
                "items_per_file": "1..array_len+2", "index": "all integers (unbounded symbolic)",
                "slice": "start/stop in -(len+2)..len+2 or None, step in {None,-3..3}",
                "values": "short / exact / oversized bytes, bytearray, str, int"},
@@ -374,7 +374,7 @@ def h_lifecycle(P, S):
 def obligations(tier, seed):
     obs = []
     q = tier == "quick"
-    ns = (2, 3) if q else (1, 2, 3, 4, 5, 6)
+    ns = (2, 3) if q else (1, 2, 3, 4, 5)
     sizes = [1, 2] if q else [1, 2, 3]
     fills = [0, 2] if q else [0, 1, 2]
     budget = 300 if q else 1500
